@@ -5,7 +5,8 @@ use crate::core::*;
 use crate::gen;
 use crate::model::eval::{self as me, compare, Disagree, FnSpec, MErr};
 use crate::pool;
-use reval::value::Value;
+use crate::data::*;
+use reval::prelude::*;
 use std::collections::BTreeMap;
 
 pub fn check(case: &EvalCase) -> Verdict {
@@ -51,8 +52,8 @@ pub fn default_tables(sel: u8) -> (BTreeMap<String, FnSpec>, BTreeMap<String, Va
         return (BTreeMap::new(), BTreeMap::new());
     }
     let mut fns = BTreeMap::new();
-    fns.insert("fa".to_string(), FnSpec { cacheable: true, fail_on: vec![], fail_first: 0 });
-    fns.insert("fb".to_string(), FnSpec { cacheable: false, fail_on: vec!["i1".into(), "none".into()], fail_first: 0 });
+    fns.insert("fa".to_string(), FnSpec { cacheable: true, fail_on: vec![], fail_first: 0, uncacheable_after: 0 });
+    fns.insert("fb".to_string(), FnSpec { cacheable: false, fail_on: vec!["i1".into(), "none".into()], fail_first: 0, uncacheable_after: 0 });
     let mut symbols = BTreeMap::new();
     symbols.insert("sa".to_string(), Value::Int(i128::MAX));
     symbols.insert("sb".to_string(), pool::du(i64::MAX / 1000, 0));
@@ -71,6 +72,101 @@ fn nontrivial(case: &EvalCase, model: &me::MRes) -> bool {
 
 static VIA_TEXT: std::sync::atomic::AtomicU64 = std::sync::atomic::AtomicU64::new(0);
 
+// ---- evaluating while the thread is exiting ---------------------------------------------------------------------
+
+struct ExitEvaluator {
+    tx: std::cell::RefCell<Option<std::sync::mpsc::Sender<String>>>,
+}
+
+fn exit_ruleset() -> crate::probe::Built {
+    let mut fns = std::collections::BTreeMap::new();
+    fns.insert("fa".to_string(), me::FnSpec { cacheable: true, fail_on: vec![], fail_first: 0, uncacheable_after: 0 });
+    fns.insert("fb".to_string(), me::FnSpec { cacheable: false, fail_on: vec![], fail_first: 0, uncacheable_after: 0 });
+    let call = |f: &str, k: i128| Expr::func(f, Expr::value(k));
+    let spec = crate::probe::SetSpec {
+        rules: vec![
+            ("calls".into(), Expr::Vec(vec![call("fa", 1), call("fa", 1), call("fb", 2)])),
+            ("dates".into(), Expr::year(Expr::datetime(Expr::value("2015-07-30T03:26:13Z".to_string())))),
+            ("sum".into(), Expr::add(Expr::reff("vi"), Expr::symbol("sa"))),
+            ("fails".into(), Expr::div(Expr::value(1), Expr::value(0))),
+        ],
+        fns,
+        symbols: [("sa".to_string(), Value::Int(7))].into_iter().collect(),
+        suspend: 0,
+    };
+    crate::probe::build(&spec, false)
+}
+
+fn exit_evaluations() -> Result<(), String> {
+    let facts = pool::map(&[("vi", Value::Int(5))]);
+    let built = exit_ruleset();
+    let out = block_on(built.ruleset.evaluate_value(&facts)).map_err(|e| e.to_string())?;
+    if out.len() != 4 || out[0].value.is_err() || out[3].value.is_ok() {
+        return Err(format!("unexpected outcomes: {:?}", out.iter().map(|o| me::show_actual(&o.value)).collect::<Vec<_>>()));
+    }
+    let v = block_on(Expr::add(Expr::reff("vi"), Expr::value(1)).evaluate(&facts)).map_err(|e| e.to_string())?;
+    if !same_value(&v, &Value::Int(6), true) {
+        return Err(format!("vi + 1 gives {}", show_value(&v)));
+    }
+    #[derive(serde::Serialize)]
+    struct F {
+        vi: i64,
+    }
+    block_on(built.ruleset.evaluate(&F { vi: 5 })).map_err(|e| e.to_string())?;
+    Ok(())
+}
+
+impl Drop for ExitEvaluator {
+    fn drop(&mut self) {
+        if let Some(tx) = self.tx.borrow_mut().take() {
+            match std::panic::catch_unwind(exit_evaluations) {
+                Ok(Ok(())) => {}
+                Ok(Err(e)) => {
+                    let _ = tx.send(format!("wrong result: {e}"));
+                }
+                Err(_) => {
+                    let _ = tx.send("panic".to_string());
+                }
+            }
+        }
+    }
+}
+
+thread_local! {
+    static EXIT_EVALUATOR: ExitEvaluator = const { ExitEvaluator { tx: std::cell::RefCell::new(None) } };
+}
+
+/// Evaluations issued from a thread-local destructor while the thread exits (the last evaluations of a thread's life);
+/// `evaluated_before`: the thread evaluated earlier; `guard_first`: the destructor was registered before that.
+fn check_evaluate_at_thread_exit(evaluated_before: bool, guard_first: bool) -> Verdict {
+    let (tx, rx) = std::sync::mpsc::channel();
+    QUIET_ALL.fetch_add(1, std::sync::atomic::Ordering::SeqCst);
+    let joined = std::thread::spawn(move || {
+        if guard_first {
+            EXIT_EVALUATOR.with(|e| *e.tx.borrow_mut() = Some(tx.clone()));
+        }
+        if evaluated_before {
+            let _ = exit_evaluations();
+        }
+        if !guard_first {
+            EXIT_EVALUATOR.with(|e| *e.tx.borrow_mut() = Some(tx.clone()));
+        }
+    })
+    .join();
+    QUIET_ALL.fetch_sub(1, std::sync::atomic::Ordering::SeqCst);
+    let problems: Vec<String> = rx.try_iter().collect();
+    if joined.is_err() {
+        return Err(Issue::new("never:panic:at-thread-exit", "the exiting thread panicked outside the boundary"));
+    }
+    match problems.first() {
+        None => Ok(()),
+        Some(p) => Err(Issue::new(
+            "never:panic:at-thread-exit",
+            format!("evaluating a ruleset (cacheable and non-cacheable calls, casts, symbols, a failing rule) and an expression from a thread-local destructor while the thread exits: {p} (thread evaluated before: {evaluated_before}, destructor registered first: {guard_first})"),
+        )),
+    }
+}
+
 pub fn run(ctx: &Ctx) {
     ctx.set_rule(
         "Generated: (0) chains of 18 operands of every binary kind, towers of 18 of every unary kind, conditionals nested in conditions, over logged calls (each operand must run once: evaluation work stays linear in the size of the expression); (1) every node kind x every operand tuple from the boundary pool (exhaustive depth-1 cells, \
@@ -87,6 +183,19 @@ pub fn run(ctx: &Ctx) {
     ctx.assume("reference evaluator (harness/src/model/eval.rs) decides which exact results are out of range");
 
     super::regressions::run(ctx, "C01", replay);
+
+    // (00) the very last evaluations of a thread's life
+    ctx.enumerate(
+        "evaluate-at-thread-exit",
+        4 * 4,
+        true,
+        |i, acc| {
+            acc.cell("thread-exit", true);
+            check_evaluate_at_thread_exit(i & 1 == 1, i & 2 == 2)
+        },
+        |i| serde_json::json!({"thread_exit": [i & 1 == 1, i & 2 == 2]}),
+        "thread-exit",
+    );
 
     // (0) completion: chains of 18 operands of every binary kind (nested to the left and to the right), towers of every
     // unary kind, conditionals in conditions: the innermost operand is a logged call, and it runs once (work linear in the
@@ -217,6 +326,9 @@ pub fn replay(j: &serde_json::Value) -> Option<Verdict> {
     if let Some(b) = j.get("fuzz_bytes").and_then(|b| b.as_array()) {
         let bytes: Vec<u8> = b.iter().filter_map(|x| x.as_u64().map(|x| x as u8)).collect();
         return Some(check(&random_case(&bytes, 7)));
+    }
+    if let Some(a) = j.get("thread_exit").and_then(|a| a.as_array()) {
+        return Some(check_evaluate_at_thread_exit(a.first()?.as_bool()?, a.get(1)?.as_bool()?));
     }
     if j.get("chain").is_some() {
         return EvalCase::from_json(j)
